@@ -230,7 +230,9 @@ func (w *wbNode) handle(p packet, listening, hops bool) ([]output, string) {
 	// (3) local delivery: fence through the same listener with the firewall open (the caller
 	// re-installs its rules before the next packet)
 	if _, ok := w.listeners[p.ToService]; ok && role == "destination" {
-		Must(n.AddFirewallRules(nil, true))
+		Must(n.AddFirewallRules([]netceptor.FirewallRuleFunc{func(*netceptor.MessageData) netceptor.FirewallResult {
+			return netceptor.FirewallResultAccept
+		}}, true))
 		go func() {
 			_ = n.VerifHandleMessageData(&netceptor.MessageData{FromNode: "fence", FromService: "fence", ToNode: w.id, ToService: p.ToService, HopsToLive: 5, Data: []byte(fenceData)})
 		}()
@@ -334,6 +336,12 @@ func (h *harness) nodeCase(gs []grule, fns []netceptor.FirewallRuleFunc, want []
 		}
 	} else if r.Chance(12) {
 		hops = false
+		if r.Chance(35) { // an unreachable notice that runs out of hops: no notice about a notice
+			p.FromService = "unreach"
+			if r.Bool() {
+				p.ToService = "unreach"
+			}
+		}
 	}
 	w := h.node(self)
 	Must(w.n.AddFirewallRules(fns, true))
